@@ -177,7 +177,7 @@ class JsonSchemaParser:
                 t = t or self.type_map.get(type) or self.default_type
 
         elif not unprovided(value):
-            t = type(value)
+            t = _type(value)
         elif conditions:
             condition_types = [self.parse_type(cond) for cond in conditions]
             if any_of:
